@@ -171,5 +171,56 @@ def run(ctx, rep):
     n_rej = run_rejects(ctx, rep, "REJECT-LEDGER", ("/compression/entropy/",))
     rep.floor("constant-bound rejections inspected", n_rej, 0)
 
+    narrow_ledger(ctx, rep, tab)
+
     for s_ in stale:
         rep.note("stale allow entry: " + s_)
+
+
+def narrow_ledger(ctx, rep, tab):
+    """NARROW-LEDGER: the entropy layer carries symbol ids, counts and probabilities in 32 bits; the set of
+    conversions of a run-time integer to fewer than 32 bits (bool tests aside) is closed and reviewed.  A new
+    one (a 16-bit look-up table entry, a uint16 symbol count) silently truncates the sparse alphabets the raw
+    scheme is allowed to carry (symbol ids up to 2^18 and beyond with few distinct values)."""
+    from ..facts import walk
+    F = ctx.F
+    rep.rules_text.append(
+        "NARROW-LEDGER: in the entropy coder sources every conversion of a non-constant integer to fewer than 32 "
+        "bits (other than to bool) is listed in rules/c08.json with the reason its operand fits")
+    ledger = tab.get("narrow_ledger", {})
+    seen = {}
+    for f in F.fns.values():
+        is_ctl = f.name.startswith("verif_control::c08_narrow")
+        if "/draco/compression/entropy/" not in f.file and not is_ctl:
+            continue
+        for b, rk, tree, ev in f.roots():
+            if tree is None:
+                continue
+            for n in walk(tree):
+                if n.get("k") not in ("icast", "cast") or not n.get("iw") or "v" in n or n["iw"] >= 32 or n["iw"] == 1:
+                    continue
+                e = n.get("e")
+                while isinstance(e, dict) and e.get("k") in ("copy", "paren"):
+                    e = e.get("e")
+                if not isinstance(e, dict) or not e.get("iw") or e["iw"] <= n["iw"]:
+                    continue
+                name = None
+                for x in walk(e):
+                    if x.get("k") in ("var", "field") and x.get("n"):
+                        name = x["n"]
+                        break
+                key = "%d | %s" % (n["iw"], name or "expression")
+                seen.setdefault((key, is_ctl), (f, n, ev))
+    n_real, fired = 0, False
+    for (key, is_ctl), (f, n, ev) in sorted(seen.items(), key=lambda x: (x[0][0], x[0][1])):
+        ok = key in ledger
+        n_real += 0 if is_ctl else 1
+        fired |= is_ctl and not ok
+        rep.add(Obligation("NARROW-LEDGER", f.base, "narrowing to " + key, f.site(n.get("loc", "") or ev.get("loc", "")),
+                           DISCHARGED if ok else VIOLATION, control=is_ctl, trivial=ok,
+                           detail=ledger.get(key, "") if ok else
+                           "`%s`: a run-time %d-bit value is narrowed to %d bits in the entropy coder and is not in the "
+                           "reviewed ledger: symbol ids / counts beyond 2^%d are truncated" % (
+                               ev.get("src", "")[:80], (n.get("e") or {}).get("iw") or 32, n["iw"], n["iw"])))
+    rep.floor("narrowing integer conversions in the entropy sources", n_real, 1)
+    rep.control("NARROW-LEDGER", "c08_narrow_bad", fired, "a 16-bit table entry for a 32-bit symbol id must be reported")
